@@ -163,20 +163,19 @@ impl VouchedTime {
             return Err(other("local time is out of range"));
         }
 
-        let local_time_ms = local_time_ms as u64;
         // if local_time - base_time in [-MAX_BACKWARD_DISCREPANCY_MS, MAX_FORWARD_DISCREPANCY_MS]
         //
-        // We subtract base_time_ns, and add MAX_BACKWARD_DISCREPANCY_MS.  This maps the
-        // allowed range to `[0, MAX_BACKWARD_DISCREPANCY_MS + MAX_FORWARD_DISCREPANCY_MS]`.
-        if local_time_ms
-            .wrapping_sub(base_time_ms)
-            .wrapping_add(MAX_BACKWARD_DISCREPANCY_MS)
-            <= MAX_BACKWARD_DISCREPANCY_MS + MAX_FORWARD_DISCREPANCY_MS
+        // Compute the difference in `i128`: both operands fit in 64 bits, so
+        // this can't wrap around (a tiny local time and a base time close to
+        // `u64::MAX` are very far apart, not close).
+        let delta_ms = local_time_ms - (base_time_ms as i128);
+        if (-(MAX_BACKWARD_DISCREPANCY_MS as i128)..=(MAX_FORWARD_DISCREPANCY_MS as i128))
+            .contains(&delta_ms)
         {
             return Ok(());
         }
 
-        if local_time_ms > base_time_ms {
+        if delta_ms > 0 {
             return Err(other("local_time is too far ahead of base_time"));
         }
 
